@@ -313,8 +313,11 @@ func (s *Sem) holds(k Conj, p Prim, depth int, resolve func(ssa.Value) ssa.Value
 // the callee's frame together with the facts of one disjunct at that return.
 type ResultCase struct {
 	Fn  *ssa.Function
+	Ret *ssa.Return
 	Val ssa.Value
 	K   Conj
+	// All: every result of that return (Val is All[i] for the i asked about)
+	All []ssa.Value
 }
 
 // ResultCases enumerates, for v = the i-th result of a call to a module function, the (return, disjunct) pairs
@@ -379,7 +382,7 @@ func (s *Sem) ResultCases(k Conj, v ssa.Value) (cases []ResultCase, ok bool) {
 			for _, e := range extra {
 				dd = dd.With(e)
 			}
-			cases = append(cases, ResultCase{Fn: g, Val: rc.Results[idx], K: dd})
+			cases = append(cases, ResultCase{Fn: g, Ret: rc.Ret, Val: rc.Results[idx], K: dd, All: rc.Results})
 		}
 	}
 	return cases, true
